@@ -29,7 +29,10 @@ CONSTANTS MaxReqs,        \* requests pipelined on the connection
 \* every method with every body framing: "<METHOD>:<none|cl|chunked>"
 Methods  == {"GET", "HEAD", "POST", "OPTIONS", "DELETE"}
 Framings == {"none", "cl", "chunked"}
-MF == {m \o ":" \o f : m \in Methods, f \in Framings}
+\* "clbig" / "chunkedbig": a body larger than the per-request header limit (MaxHeaderBytes + 4096),
+\* with the embedded request placed exactly at that offset of the request's bytes on the wire
+BigMF == {m \o ":" \o f : m \in {"POST", "HEAD"}, f \in {"clbig", "chunkedbig"}}
+MF == {m \o ":" \o f : m \in Methods, f \in Framings} \cup BigMF
 AllClasses == MF \cup {"early", "earlybig", "expect", "expectearly",
                "expect0", "expectbad", "bad", "oversize", "http10", "close"}
 ASSUME Classes \subseteq AllClasses
